@@ -449,7 +449,7 @@ def mofunCliTrace (find_path : Option String) (replace_path : Option String) (du
       ["l5 = Atoms.load(find_path)"] ++
       (if (Option.isSome replace_path) then
         ["l6 = Atoms.load(replace_path)",
-         "atoms = replace_pattern_in_structure(atoms, l5, l6, axisp1_idx=axisp1_idx, axisp2_idx=axisp2_idx, opoint_idx=opoint_idx, replace_fraction=replace_fraction)"]
+         "atoms = replace_pattern_in_structure(atoms, l5, l6, atol=atol, axisp1_idx=axisp1_idx, axisp2_idx=axisp2_idx, opoint_idx=opoint_idx, replace_fraction=replace_fraction)"]
       else
         ["l7 = find_pattern_in_structure(atoms, l5, atol=atol, axisp1_idx=axisp1_idx, axisp2_idx=axisp2_idx, opoint_idx=opoint_idx)",
          "print('Found %d instances of the search_pattern in the structure' % len(l7))",
